@@ -13,6 +13,10 @@ A case is {"cfg": {...}, "ops": [...]}:
          "adv <ticks>"              virtual time passes
          "done <arg> <i> <outcome>" the i-th oldest background refresh in flight for <arg> completes with that outcome
   outcome = ok | lis | unl          the function returns (and its result is stored) | raises a listed | an unlisted exception
+          | same                    like ok, but the function returns a result EQUAL to the one its latest successful execution for
+                                    this argument returned (a healthy function mostly returns what it returned before); for the model
+                                    every successful execution is a store event of its own (`ok`), and a served payload is
+                                    canonicalised to the token (completion tick, ordinal) of the latest execution that returned it
           | rej                     (mode script) the function returns a result that the condition turns down (returns False)
           | cL cU | tL tU | sL sU   (mode script) the function returns a result on which the condition raises | the callable
                                     ttl raises (failover / soft only: early evaluates a callable ttl before executing and
@@ -47,6 +51,22 @@ def _mk_dt(*fields):
 copyreg.pickle(vtime._RealDatetime, lambda d: (_mk_dt, (d.year, d.month, d.day, d.hour, d.minute, d.second, d.microsecond)))
 
 
+class Pay(tuple):
+    """what a successful execution returns: compares (and hashes) like the plain tuple (completion tick, ordinal) - results of
+    outcome `same` are EQUAL to the earlier one - but remembers which execution produced it (`serial`), so that the harness
+    can always name the store event a served value comes from"""
+    serial = None
+
+    def __reduce__(self):
+        return (_mk_pay, (tuple(self), self.serial))
+
+
+def _mk_pay(fields, serial):
+    p = Pay(fields)
+    p.serial = serial
+    return p
+
+
 class Listed(Exception):
     pass
 
@@ -65,7 +85,7 @@ class StoreUnlisted(Unlisted):
 
 RETURNS = ("ok", "rej", "cL", "cU", "tL", "tU", "sL", "sU")      # the function itself returns
 STORE_FAILS = ("cL", "cU", "tL", "tU", "sL", "sU")                # ... and the store step raises
-MODEL_OUTCOME = {"ok": "ok", "lis": "lis", "unl": "unl", "rej": "rej", "cL": "preL", "cU": "preU", "tL": "preL",
+MODEL_OUTCOME = {"same": "ok", "ok": "ok", "lis": "lis", "unl": "unl", "rej": "rej", "cL": "preL", "cU": "preU", "tL": "preL",
                  "tU": "preU", "sL": "setL", "sU": "setU"}
 
 
@@ -142,6 +162,16 @@ def wrap(cache, cfg, f):
     if d == "fail":
         return cache.failover(ttl=ttl, exceptions=(Listed,), **extra)(f)
     if d == "hit":
+        # cttl: the ttl is given as a CALLABLE that returns the same number (D71: resolved before it reaches the backend)
+        seconds = ttl
+        if cfg.get("cttl") == 1:
+            ttl = lambda arg: seconds                       # noqa: E731  (called with the call's arguments)
+        elif cfg.get("cttl") == 2:
+            ttl = lambda arg, result=None: seconds          # noqa: E731  (... and, where there is one, the result)
+        if cfg.get("via") == "dynamic":
+            if (cfg["hits"], cfg["upd"], cfg["bg"]) != (3, 1, 1):
+                raise HarnessError("via=dynamic is hit(cache_hits=3, update_after=1, background=True)")
+            return cache.dynamic(ttl=ttl, **extra)(f)
         return cache.hit(ttl=ttl, cache_hits=cfg["hits"], update_after=cfg["upd"], background=bool(cfg["bg"]), **extra)(f)
     raise HarnessError(f"unknown decorator {d}")
 
@@ -159,6 +189,7 @@ class _Ctx:
         self.cur = {"outcome": "ok", "dur": 0}
         self.callers = set()                      # the tasks in which the harness makes its calls
         self.finished = []                        # the executions in the order in which they completed
+        self.lastpayload = {}                     # arg -> what its latest successful (ok / same) execution returned
 
 
 _CTX: _Ctx | None = None
@@ -171,7 +202,7 @@ async def wrapped_function(arg):
     ctx = _CTX
     n = ctx.nexec[arg]
     ctx.nexec[arg] += 1
-    rec = {"arg": arg, "id": n, "start": CLOCK.ticks(), "end": None, "outcome": None, "bg": False, "dur": 0}
+    rec = {"arg": arg, "id": n, "start": CLOCK.ticks(), "end": None, "outcome": None, "bg": False, "dur": 0, "payload": None}
     ctx.execs.append(rec)
     out = ctx.cur["outcome"]
     if asyncio.current_task() not in ctx.callers and ctx.cfg["bg"] and ctx.cfg["decor"] in ("early", "hit"):
@@ -186,13 +217,18 @@ async def wrapped_function(arg):
         if CLOCK.ticks() != rec["start"] + rec["dur"]:
             raise HarnessError(f"a body of {rec['dur']} ticks started at {rec['start']} ended at {CLOCK.ticks()}")
     rec["end"] = CLOCK.ticks()
-    rec["outcome"] = out
+    rec["outcome"] = "ok" if out == "same" else out
     ctx.finished.append(rec)
-    if out == "ok":
-        return (rec["end"], n)
+    if out == "same" and ctx.lastpayload.get(arg) is not None:
+        rec["payload"] = ctx.lastpayload[arg]
+        return _mk_pay(rec["payload"], n)
+    if out in ("ok", "same"):
+        rec["payload"] = ctx.lastpayload[arg] = (rec["end"], n)
+        return _mk_pay(rec["payload"], n)
     if out in RETURNS:
         if ctx.cfg.get("mode", "default") != "script":
             raise HarnessError(f"outcome {out} needs cfg mode=script")
+        rec["payload"] = (rec["end"], n)
         return (rec["end"], n, out)          # the store step reads the flag off the result
     if out not in ("lis", "unl"):
         raise HarnessError(f"bad outcome {out!r}")
@@ -228,12 +264,25 @@ def _guard(loop):
     loop._run_once = run_once
 
 
-def _shown(outcome, arg, ran):
-    """canonical form of what a call returned / raised; `ran`: the executions that completed while it was answered"""
+def _shown(outcome, arg, ran, finished=()):
+    """canonical form of what a call returned / raised; `ran`: the executions that completed while it was answered.
+    A returned payload is named after the execution it comes from: one that completed while the call was answered (fresh),
+    else the LATEST earlier execution that returned an equal payload (outcome `same` repeats payloads)"""
     kind = outcome[0]
+    if kind == "val" and len(outcome) > 3 and outcome[3] is not None:
+        # the payload says which execution produced it
+        for e in finished:
+            if e["arg"] == arg and e["id"] == outcome[3]:
+                return ("fresh" if any(e is r for r in ran) else "stored") + f":{e['end']}:{e['id']}"
     if kind == "val":
-        fresh = any(e["arg"] == arg and e["id"] == outcome[2] and e["end"] == outcome[1] for e in ran)
-        return ("fresh" if fresh else "stored") + f":{outcome[1]}:{outcome[2]}"
+        pay = (outcome[1], outcome[2])
+        for e in reversed(ran):
+            if e["arg"] == arg and e["payload"] == pay:
+                return f"fresh:{e['end']}:{e['id']}"
+        for e in reversed(finished):
+            if e["arg"] == arg and e["payload"] == pay:
+                return f"stored:{e['end']}:{e['id']}"
+        return f"stored:{outcome[1]}:{outcome[2]}"
     if kind in ("raised", "storeerr"):
         return kind + ":" + outcome[1]
     return "other:" + outcome[1]
@@ -244,7 +293,7 @@ async def _caller(g, arg):
     try:
         r = await g(arg)
         if isinstance(r, tuple) and len(r) in (2, 3) and all(isinstance(x, int) for x in r[:2]):
-            return ("val", r[0], r[1])
+            return ("val", r[0], r[1], getattr(r, "serial", None))
         return ("other", repr(r))
     except StoreListed:
         return ("storeerr", "lis")
@@ -313,7 +362,8 @@ async def _execute(cfg, ops):
                     raise HarnessError("virtual time moved while a call was being parked")
                 parked[arg].append((opi, task))
                 rid = gates[arg][0][0]
-                events.append({"op": line, "kind": "call", "arg": arg, "t": t, "t_end": t, "dur": dur, "outcome": o,
+                events.append({"op": line, "kind": "call", "arg": arg, "t": t, "t_end": t, "dur": dur,
+                               "outcome": "ok" if o == "same" else o, "same": o == "same",
                                "res": f"joined:{rid}", "x": 0, "b": 0, "n": len(gates[arg]), "infl_before": infl_before,
                                "started_id": None, "ran": [], "late": [], "joined": rid,
                                "impl": f"joined:{rid} x=0 b=0 n={len(gates[arg])} t={t}"})
@@ -325,10 +375,11 @@ async def _execute(cfg, ops):
             if t_end != t + sum(e["dur"] for e in ran):
                 raise HarnessError(f"virtual time moved during a call by something else than its function body: {t} -> {t_end}")
             new = execs[started_before:]
-            shown = _shown(res, arg, ran)
+            shown = _shown(res, arg, ran, ctx.finished)
             x = len(ran)
             b = sum(1 for e in new if e["bg"] and e["end"] is None)
-            events.append({"op": line, "kind": "call", "arg": arg, "t": t, "t_end": t_end, "dur": dur, "outcome": o,
+            events.append({"op": line, "kind": "call", "arg": arg, "t": t, "t_end": t_end, "dur": dur,
+                           "outcome": "ok" if o == "same" else o, "same": o == "same",
                            "res": shown, "x": x, "b": b,
                            "n": len(gates[arg]), "infl_before": infl_before,
                            "started_id": gates[arg][-1][0] if b else None,
@@ -350,13 +401,15 @@ async def _execute(cfg, ops):
                 fut.set_result(o)
                 await _quiesce()
                 ran = ctx.finished[done_before:]
-                shown = "stored" if o == "ok" else ("skipped" if o == "rej" else "failed")
+                shown = "stored" if o in ("ok", "same") else ("skipped" if o == "rej" else "failed")
+                if o == "same":
+                    o = "ok"
                 # the callers parked on this recalculation are answered now
                 waiters = []
                 still = []
                 for wop, wtask in parked[arg]:
                     if wtask.done():
-                        waiters.append((wop, _shown(wtask.result(), arg, ran)))
+                        waiters.append((wop, _shown(wtask.result(), arg, ran, ctx.finished)))
                     else:
                         still.append((wop, wtask))
                 parked[arg] = still
@@ -365,11 +418,11 @@ async def _execute(cfg, ops):
                 if waiters:
                     kinds = sorted({r for _, r in waiters})
                     wtag = " w=" + (kinds[0] if len(kinds) == 1 else "mixed(" + ",".join(kinds) + ")")
-                events.append({"op": line, "kind": "done", "arg": arg, "t": t, "id": n, "start": start, "outcome": o,
+                events.append({"op": line, "kind": "done", "arg": arg, "t": t, "id": n, "start": start, "outcome": o, "same": w[3] == "same",
                                "res": shown, "n": len(gates[arg]), "waiters": waiters,
                                "impl": f"{shown} n={len(gates[arg])} t={CLOCK.ticks()}{wtag}"})
             else:
-                events.append({"op": line, "kind": "done", "arg": arg, "t": t, "id": None, "outcome": o, "res": "noop",
+                events.append({"op": line, "kind": "done", "arg": arg, "t": t, "id": None, "outcome": "ok" if o == "same" else o, "res": "noop",
                                "n": len(gates[arg]), "waiters": [], "impl": f"noop n={len(gates[arg])} t={CLOCK.ticks()}{wtag}"})
         elif w[0] in ("set", "del") and len(w) == 2:
             # capacity stage (harness/overlap14.py): unrelated keys written / deleted straight through the cache
@@ -471,6 +524,7 @@ def model_view(ev, ans: str) -> str:
 # ------------------------------------------------------------------------------------------------------------------
 
 D19 = "D19-foreground-refresh-failure-propagates"
+D71 = "D71:hit-callable-ttl-raises"
 # D39 / D40 (found when the check learnt executions with a duration; repaired in /repo): soft fell back to the `cached` it
 # had read BEFORE the function ran, early(background=False) returned the result it had read before the foreground refresh
 # it awaited - after a slow execution a value stored more than ttl ago.  Their witnesses are corpus cases
@@ -490,6 +544,7 @@ def oracle(cfg, events):
     since = {}           # arg -> calls since the last store (hit)
     sequential = {}      # arg -> no call was made while a refresh was in flight (hit)
     lstart = {}          # arg -> instant at which the execution that produced `last` STARTED
+    conf = {}            # arg -> instant at which a result equal to the latest one was FIRST stored (chains of outcome `same`)
     started = {}         # (arg, execution id) -> index of the call that started that background refresh
     prev_rej = {}        # arg -> the previous call for this argument returned a result the condition turned down
     reset_kept = {}      # arg -> hit: a refused SET deleted the counter while an older result stayed stored
@@ -526,6 +581,7 @@ def oracle(cfg, events):
                 if last.get(arg) and t - last[arg][0] < ttl:
                     reset_kept[arg] = True
             if ev["res"] == "stored":
+                conf[arg] = conf.get(arg) if (ev.get("same") and last.get(arg)) else t
                 last[arg] = (t, ev["id"])
                 lstart[arg] = ev["start"]
                 since[arg] = 0
@@ -552,6 +608,12 @@ def oracle(cfg, events):
         age_end = te - L[0] if L else None        # ... and when it returned
         if te != t + (dur if x == 1 else 0):
             bad(i, "call-duration", f"the call began at {t} and returned at {te}: executed {x}, function body of {dur} ticks")
+        if ev.get("same") and x == 1 and L:
+            seen.add("execution_returned_a_result_equal_to_the_stored_one")
+            if age < ttl:
+                seen.add("equal_result_confirmed_while_the_first_one_is_still_stored")
+        if conf.get(arg) is not None and L and kind == "stored" and val == L and te - conf[arg] >= ttl:
+            seen.add("served_result_first_seen_more_than_ttl_ago_confirmed_since")
         if x == 1 and dur:
             seen.add("execution_took_time")
             if L and age < ttl <= age_end:
@@ -561,7 +623,9 @@ def oracle(cfg, events):
         if L and x == 0 and kind == "stored" and inner and age <= inner - (1 if d == "soft" else 0) < t - lstart.get(arg, L[0]):
             # young only because the inner deadline counts from the COMPLETION of the execution that produced the result
             seen.add("young_only_by_completion_stamp")
-        if kind == "other":
+        if kind == "other" and cfg.get("cttl") and "TypeError" in res:
+            bad(i, D71, f"hit / dynamic with a callable ttl: the call raised {res} (the raw callable reached the backend as an expiry)")
+        elif kind == "other":
             bad(i, "unexpected-result", f"call returned/raised something outside the alphabet: {res}")
         # ---- the store step after a successful execution (all four strategies)
         own = x == 1 and o in RETURNS          # the function ran inside this call and returned
@@ -677,6 +741,13 @@ def oracle(cfg, events):
                 seen.add("stored_served_on_listed")
                 if dur:
                     seen.add("stored_served_on_slow_listed_failure")
+            if L and o == "lis" and x == 1 and age_end < ttl:
+                # 'a stored result younger than ttl is returned when it raises one of the listed exceptions': the result of the
+                # latest successful call counts from THAT call, however long ago an equal result was first stored
+                if res != f"stored:{L[0]}:{L[1]}":
+                    bad(i, "failover-young-result-not-returned",
+                        f"the function raised a listed exception at {te}, the latest successful call stored its result at {L[0]} "
+                        f"({age_end} < ttl={ttl} ago), but the call gave {res} instead of that result")
             if L and o == "lis" and age < ttl <= age_end:
                 seen.add("listed_failure_after_result_expired_during_execution")
             if L and age_end == ttl and o == "lis":
@@ -739,6 +810,7 @@ def oracle(cfg, events):
                 seen.add("counter_kept_growing_after_failed_execution")
         for rid, rend, rout, rstart in ev["ran"] + ev["late"]:
             if rout == "ok":
+                conf[arg] = conf.get(arg) if (ev.get("same") and last.get(arg)) else rend
                 last[arg] = (rend, rid)
                 lstart[arg] = rstart
     return problems, seen
@@ -752,7 +824,7 @@ TTLS = [16, 80]          # 2 s, 10 s
 INNERS = [4, 8, 32]      # ½ s, 1 s, 4 s
 HITS = [1, 2, 3]
 UPDS = [0, 1, 2]
-OUTCOMES = ["ok", "ok", "ok", "lis", "unl"]
+OUTCOMES = ["ok", "ok", "ok", "same", "lis", "unl"]
 # mode script: also results the condition turns down and store steps that raise (condition / callable ttl / SET)
 SCRIPT_EXTRA = {
     "fail": ["rej", "cL", "cU", "tL", "tU", "sL", "sU"],
@@ -779,13 +851,15 @@ def gen_cfg(rng, decor=None):
         "bg": rng.choice([0, 1]) if d in ("early", "hit") else 0,
         "store": rng.choice(["plain", "plain", "purge", "pickle"]),
         "mode": rng.choice(["default", "script"]),
+        **({"cttl": rng.choice([1, 2])} if d == "hit" and rng.random() < 0.3 else {}),
     }
 
 
 def gaps(cfg):
     """virtual-time gaps around the inner and hard TTL: below, exactly at, between, exactly at, beyond"""
     ttl, inner = cfg["ttl"], cfg["inner"]
-    g = {0, 1, ttl - 1, ttl, ttl + 1, 2 * ttl + 3}
+    # ... and SUB-SECOND offsets (1 tick = 1/8 s): 2..7 ticks after a store and the last three ticks before the hard ttl
+    g = {0, 1, 2, 3, 5, 6, 7, ttl - 3, ttl - 2, ttl - 1, ttl, ttl + 1, 2 * ttl + 3}
     if inner:
         g |= {inner - 1, inner, inner + 1, (inner + ttl) // 2, ttl - inner, max(ttl - inner - 1, 0)}
     else:
@@ -837,7 +911,7 @@ def gen_ops(rng, cfg, maxlen=14):
                 i = 0 if rng.random() < 0.7 else 1
                 o = rng.choice(OUT)
                 ops.append(f"done {arg} {i} {o}")
-                if o == "ok":
+                if o in ("ok", "same"):
                     mark[arg] = now
                 infl[arg] = max(0, infl[arg] - 1)
         else:
@@ -846,7 +920,7 @@ def gen_ops(rng, cfg, maxlen=14):
             ops.append(f"call {arg} {o} {dur}" if dur else f"call {arg} {o}")
             if rng.random() < 0.6:
                 now += dur          # the body ran (a guess: whether it does is the decorator's decision)
-                if o == "ok":
+                if o in ("ok", "same"):
                     mark[arg] = now
             if cfg["bg"]:
                 infl[arg] += 1 if rng.random() < 0.5 else 0
@@ -918,6 +992,20 @@ ENUM_DUR = [
 ENUM_JOIN = [
     ({"decor": "early", "ttl": 16, "inner": 4, "hits": 0, "upd": 0, "bg": 1, "store": "plain"},
      ["call a ok", "adv 5", "adv 12", "done a 0 ok", "done a 0 lis"]),
+]
+
+
+# sub-second steps (hit: a first hit 5/8 s after the store, then the last ticks before the hard ttl of 2 s) and successful
+# executions that return a result EQUAL to the stored one (failover / soft / hit: `same`)
+ENUM_FINE = [
+    ({"decor": "hit", "ttl": 16, "inner": 0, "hits": 1, "upd": 0, "bg": 0, "store": "plain"},
+     ["call a ok", "adv 5", "adv 9", "adv 1"]),
+    ({"decor": "hit", "ttl": 16, "inner": 0, "hits": 2, "upd": 1, "bg": 1, "store": "plain"},
+     ["call a ok", "adv 6", "adv 8", "done a 0 lis"]),
+    ({"decor": "fail", "ttl": 16, "inner": 0, "hits": 0, "upd": 0, "bg": 0, "store": "plain"},
+     ["call a ok", "call a same", "call a lis", "adv 15"]),
+    ({"decor": "soft", "ttl": 16, "inner": 4, "hits": 0, "upd": 0, "bg": 0, "store": "plain"},
+     ["call a same", "call a lis", "adv 4", "adv 11"]),
 ]
 
 
